@@ -91,6 +91,18 @@ Theorem C08_mixed_bridgecall_refuted :
 Proof. exact mixed_bridgecall_refuted. Qed.
 Print Assumptions C08_mixed_bridgecall_refuted.
 
+(* externally-owned pair with a token that is not a FIP20 (reverts / returns false / returns nothing): the books hold over
+   every conversion history, and a conversion whose transfer does not happen is refused *)
+Theorem C08_legacy_token_books : forall f ops s,
+  l_esc (lsteps f s ops) - l_sup (lsteps f s ops) = l_esc s - l_sup s.
+Proof. exact legacy_books. Qed.
+Print Assumptions C08_legacy_token_books.
+
+Theorem C08_failed_transfer_refused : forall f a r x s,
+  lget a (l_tok s) < x -> snd (lstep f s (LConvertERC20 a r x)) = false.
+Proof. exact legacy_failed_transfer_refused. Qed.
+Print Assumptions C08_failed_transfer_refused.
+
 Theorem C08_nonvacuous :
   (let s' := fst (mtx [MApprove Pc 40; MTransfer 300 30; MCrossChain 40; MBalanceOf C] mix_s0) in
    snd (mtx [MApprove Pc 40; MTransfer 300 30; MCrossChain 40; MBalanceOf C] mix_s0) = true /\
